@@ -15,7 +15,12 @@ import numpy as np
 
 
 class SpringModel:
-    def __init__(self, rc: float, seed: int = 0, central: bool = False, decay: float = 0.7, chiral: float = 0.0):
+    def __init__(self, rc: float, seed: int = 0, central: bool = False, decay: float = 0.7, chiral: float = 0.0, axial: float = 0.0, axis=(0.0, 0.0, 1.0)):
+        # axial != 0 adds -axial*k_r*(n n^T) to every pair block (n = unit vector along `axis`): an extra stiffness along one
+        # direction, invariant under exactly those isometries that map the axis onto +-itself (a uniaxial crystal field, e.g. of a
+        # ferromagnet magnetised along n); symmetric, so index-permutation symmetry and the acoustic sum rule are kept
+        self.axial = float(axial)
+        self.axis = np.array(axis, float) / np.linalg.norm(axis)
         # chiral != 0 adds an antisymmetric part c*k_r*[e]x to every pair block (Phi(ij) != Phi(ij)^T while
         # Phi(ji) = Phi(ij)^T still holds); the self term takes the symmetric parts only, so the acoustic sum rule is given up
         self.chiral = float(chiral)
@@ -40,7 +45,7 @@ class SpringModel:
         return kr, kt
 
     def todict(self):
-        return {"rc": self.rc, "seed": self.seed, "central": self.central, "decay": self.decay, "chiral": self.chiral}
+        return {"rc": self.rc, "seed": self.seed, "central": self.central, "decay": self.decay, "chiral": self.chiral, "axial": self.axial, "axis": self.axis.tolist()}
 
 
 def lattice_translations(L, rmax):
@@ -67,13 +72,15 @@ for _a, _b, _c in ((0, 1, 2), (1, 2, 0), (2, 0, 1)):
     _EPS[_b, _a, _c] = -1.0
 
 
-def _phi_block(v, kr, kt, chiral=0.0):
+def _phi_block(v, kr, kt, chiral=0.0, axial=None):
     d = np.linalg.norm(v, axis=-1)
     e = v / d[..., None]
     ee = e[..., :, None] * e[..., None, :]
     out = -(kr[..., None, None] * ee + kt[..., None, None] * (np.eye(3) - ee))
     if chiral:
         out = out - chiral * kr[..., None, None] * np.einsum("abc,...c->...ab", _EPS, e)
+    if axial is not None and axial[0]:
+        out = out - axial[0] * kr[..., None, None] * np.outer(axial[1], axial[1])
     return out
 
 
@@ -101,7 +108,7 @@ def folded_fc(L, cart, symbols, model: SpringModel):
             if not m.any():
                 continue
             kr, kt = model.k(symbols[i], symbols[j], d[m])
-            p = _phi_block(v[m], kr, kt, model.chiral).sum(axis=0)
+            p = _phi_block(v[m], kr, kt, model.chiral, (model.axial, model.axis)).sum(axis=0)
             fc[i, j] += p
             fc[i, i] -= _sym(p)
     return fc
@@ -136,7 +143,7 @@ def dynmat(Lp, cart, symbols, masses, q_frac, model: SpringModel):
             if not m.any():
                 continue
             kr, kt = model.k(symbols[i], symbols[j], d[m])
-            p = _phi_block(v[m], kr, kt, model.chiral)
+            p = _phi_block(v[m], kr, kt, model.chiral, (model.axial, model.axis))
             ph = np.exp(2j * np.pi * (v[m] @ qc))
             D[i, :, j, :] += (p * ph[:, None, None]).sum(axis=0) / np.sqrt(masses[i] * masses[j])
             D[i, :, i, :] -= _sym(p.sum(axis=0)) / masses[i]
@@ -161,7 +168,7 @@ def dynmat_gradient(Lp, cart, symbols, masses, q_frac, model: SpringModel):
             if not m.any():
                 continue
             kr, kt = model.k(symbols[i], symbols[j], d[m])
-            p = _phi_block(v[m], kr, kt, model.chiral)
+            p = _phi_block(v[m], kr, kt, model.chiral, (model.axial, model.axis))
             ph = np.exp(2j * np.pi * (v[m] @ qc))
             for a in range(3):
                 G[a, i, :, j, :] += (p * (2j * np.pi * v[m][:, a] * ph)[:, None, None]).sum(axis=0) / np.sqrt(masses[i] * masses[j])
